@@ -12,6 +12,7 @@
 package main
 
 import (
+	"flag"
 	"fmt"
 	"os"
 	"path/filepath"
@@ -866,6 +867,7 @@ type world struct {
 	res    *updater.Resource
 	idx    *updater.Index
 	cf     cfg
+	flags  map[string]*ent // reference record of the flags of every announced version (normalized number -> flags)
 	files  map[string]bool // normalized version -> main file and signature are on disk
 	handed string          // version handed out last by the registry's GetFile ("" none)
 	purged int
@@ -883,6 +885,77 @@ func (w *world) violate(clause, site, disc, detail string) {
 	col.add(w.pos, clause, site, disc, func() string {
 		return fmt.Sprintf("seed %s (%s, %s) history %v: %s", wit.Seed, wit.Phase, wit.Cfg, wit.History, detail)
 	}, wit)
+}
+
+// announce records an AddVersion in the reference record, as the unchanged AddVersion documents the flags:
+// Available and PreRelease are only ever raised (a version with a pre-release suffix always carries PreRelease),
+// a new current release takes the CurrentRelease flag away from every other version, announcing without it
+// leaves it where it is. Versions are identified by their normalized number.
+func (w *world) announce(v string, a, cur, p bool) {
+	nv := mustVer(v)
+	if cur {
+		for _, f := range w.flags {
+			f.C = false
+		}
+	}
+	f := w.flags[nv.String()]
+	if f == nil {
+		f = &ent{Num: nv.String(), v: nv}
+		w.flags[f.Num] = f
+	}
+	f.A = f.A || a
+	f.C = f.C || cur
+	f.P = f.P || p || nv.pre != ""
+}
+
+// checkFlags compares the flags the resource lists with the reference record. Versions the implementation no
+// longer lists after a purge are dropped from the record (which entries a purge drops is its decision).
+// Skipped while the list holds two entries of one version (those cases are judged on the listed flags).
+func (w *world) checkFlags(site string, afterPurge bool) {
+	sn := snapshot(w.res)
+	if strings.Contains(listTags(sn.list), "duplicate-entries") {
+		return
+	}
+	listed := map[string]ent{}
+	for _, x := range sn.list {
+		listed[x.Num] = x
+	}
+	var nums []string
+	for n := range w.flags {
+		nums = append(nums, n)
+	}
+	sort.Strings(nums)
+	for _, n := range nums {
+		f := w.flags[n]
+		x, ok := listed[n]
+		if !ok {
+			if afterPurge {
+				delete(w.flags, n)
+				continue
+			}
+			w.violate("version-flags-kept", site, "announced-version-not-listed", fmt.Sprintf("version %s was announced, the resource does not list it: %s", n, sn))
+			return
+		}
+		for _, d := range []struct {
+			name      string
+			want, got bool
+		}{{"available", f.A, x.A}, {"current-release", f.C, x.C}, {"pre-release", f.P, x.P}, {"blacklisted", f.B, x.B}} {
+			if d.want != d.got {
+				word := "-flag-lost"
+				if d.got {
+					word = "-flag-appeared"
+				}
+				w.violate("version-flags-kept", site, d.name+word, fmt.Sprintf("after %s the resource lists %s, the announcements so far give it %s (Available and PreRelease are only ever raised, CurrentRelease moves only to a newly announced current release, Blacklisted is set by Blacklist only); list: %s", site, x, *f, sn))
+				return
+			}
+		}
+	}
+	for _, x := range sn.list {
+		if w.flags[x.Num] == nil {
+			w.violate("version-flags-kept", site, "unannounced-version-listed", fmt.Sprintf("the resource lists %s, which was never announced: %s", x, sn))
+			return
+		}
+	}
 }
 
 type opDef struct {
@@ -923,6 +996,7 @@ func opAdd(v string, a, cur, p bool) opDef {
 		if a {
 			w.files[nv.String()] = true // the file of an available version is on disk
 		}
+		w.announce(v, a, cur, p)
 		n := 0
 		for _, x := range snapshot(w.res).list {
 			if x.v.cmp(nv) == 0 {
@@ -1044,6 +1118,9 @@ func opBlacklist(sym string) opDef {
 			return "Blacklist:refused-last"
 		}
 		// accepted: the version is blacklisted and a new selection was made
+		if f := w.flags[t]; f != nil {
+			f.B = true
+		}
 		set := false
 		for _, x := range after.list {
 			set = set || (x.Num == t && x.B)
@@ -1355,7 +1432,7 @@ func runHistory(c *vlib.Ctx, wc *wctx, ops []opDef, byName map[string]int, sd se
 		c.EngineError("registry: %v", err)
 		return "", "engine-error", false
 	}
-	w := &world{pos: pos, c: c, wc: wc, dir: wc.dir, reg: reg, idx: sd.cf.index(), cf: sd.cf, files: map[string]bool{}, verbose: verbose,
+	w := &world{pos: pos, c: c, wc: wc, dir: wc.dir, reg: reg, idx: sd.cf.index(), cf: sd.cf, flags: map[string]*ent{}, files: map[string]bool{}, verbose: verbose,
 		wit: witness{Part: "history", Seed: seedPools[sd.pool].name, Phase: sd.phase, Cfg: sd.cf.String()}}
 	for _, x := range seedPools[sd.pool].vers {
 		if err := reg.AddResource(resID, x.Num, w.idx, x.A, x.C, x.P); err != nil {
@@ -1365,8 +1442,13 @@ func runHistory(c *vlib.Ctx, wc *wctx, ops []opDef, byName map[string]int, sd se
 		if x.A {
 			w.files[x.Num] = true
 		}
+		w.announce(x.Num, x.A, x.C, x.P)
 	}
 	w.res = updater.VerifResource(reg, resID)
+	w.checkFlags("seed", false)
+	if w.bad {
+		return "", "violation", false
+	}
 	steps := make([]int, 0, len(hist)+2)
 	for _, n := range phases[sd.phase] {
 		steps = append(steps, byName[n])
@@ -1387,6 +1469,12 @@ func runHistory(c *vlib.Ctx, wc *wctx, ops []opDef, byName map[string]int, sd se
 				clause = "selection-cascade"
 			}
 			w.violate(clause, o.kind, "panic:"+vlib.PanicSite(stack), fmt.Sprintf("panic %v", p))
+		}
+		if !w.bad {
+			w.checkFlags(o.kind, o.kind == "Purge")
+			if w.bad {
+				outcome = o.kind + ":violation"
+			}
 		}
 		if verbose {
 			fmt.Printf("  %-55s -> %-40s %s | registry %s | files %v\n", o.name, outcome, snapshot(w.res), w.cf, fileList(w.files))
@@ -1865,6 +1953,7 @@ func main() {
 		c.Assume("selection is compared where the code computes it (selectVersion/SelectVersions, a successful Blacklist, a GetFile with nothing selected); AddResource is documented as 'does not select new version', so a stale SelectedVersion between AddVersion and the next selection is not a violation")
 		c.Assume("'files of at least the requested number of further versions are still on disk' is read as: at least keep (or all) of the listed versions that are not active/selected/newest stable lose no file; a listed version that had no file counts as kept")
 		c.Assume("a version whose file path holds a directory (obstacle that Purge cannot or need not remove) counts as having its file: it may stay listed as available or be dropped; only a listed-available version with nothing at its path violates 'lists only existing files'")
+		c.Assume("version flags across repeated announcements are those the unchanged AddVersion documents: Available and PreRelease are only ever raised (announcing an existing version again with available=false or preRelease=false lowers nothing; a pre-release suffix always implies PreRelease), announcing a current release clears CurrentRelease on every other version and announcing without it leaves the flag where it is, Blacklisted is set by a successful Blacklist only; after every operation the listed flags are compared with this record (clause version-flags-kept), so that 'stable', 'selectable' and 'current release' in the selection order refer to what was announced")
 		c.Assume("newest stable version = newest listed version without the pre-release flag other than the dev version 0.0.0; active version = the version the registry's GetFile handed out last")
 		c.Assume("Blacklist: refusing is required when no other non-blacklisted version (of any kind) would remain and, with dev mode off, when the target is the only release version (not the dev build 0.0.0) that is not blacklisted (Blacklist documents 'ignore dev versions' for its count of valid versions); accepting is required when at least two release versions are not blacklisted; with dev mode on and only the dev build remaining, and for blacklisting the dev build itself when at most one release is left, both are accepted; re-blacklisting may be refused or accepted")
 		c.Assume("identifiers of the file-name enumeration do not themselves contain a version marker _v<n>-<n>-<n> in the file name; version strings are those of the documented pattern [0-9]+.[0-9]+.[0-9]+(-[a-z]+)?")
@@ -1945,6 +2034,12 @@ func main() {
 		}
 
 		total := vlib.Pick(c, 170*time.Second, 28*time.Minute)
+		if f := flag.Lookup("budget"); f != nil {
+			// an explicit --budget replaces the tier's internal budget (e.g. to finish on an overloaded machine)
+			if d, err := time.ParseDuration(f.Value.String()); err == nil && d > 0 {
+				total = d
+			}
+		}
 		c.SetBudget(total)
 		t0 := time.Now()
 		partNames(c)
